@@ -604,13 +604,20 @@ func c19SiteArgs(r *Run) {
 // c19Site: no node type stores a declaration (data.Property / data.Types) into itself during evaluation.
 func c19Site(r *Run) {
 	c19SiteArgs(r)
+	c19OwnClassFirst(r)
 	r.curRule = "C19-SITE"
 	npkg := r.pkg("node")
 	if npkg == nil {
 		return
 	}
 	isDecl := func(t types.Type) bool {
-		return isNamed(t, modPath+"/data", "Property") || isNamed(t, modPath+"/data", "Types")
+		return isNamed(t, modPath+"/data", "Property") || isNamed(t, modPath+"/data", "Types") || isNamed(t, modPath+"/data", "ClassStmt")
+	}
+	// resolution caches of names written in the source (new Foo, an annotation's class): the same answer
+	// for every instantiation; listed with reasons in nodeStateTable
+	tabled := map[string]bool{}
+	for _, e := range nodeStateTable {
+		tabled[e[0]] = true
 	}
 	writes, examined := evalClosureFieldWrites(npkg)
 	if os.Getenv("DUMPWRITES") != "" {
@@ -620,7 +627,7 @@ func c19Site(r *Run) {
 	}
 	bad := map[string]bool{}
 	for _, w := range writes {
-		if isDecl(w.ftype) {
+		if isDecl(w.ftype) && !tabled[w.typeName+"."+w.field] {
 			bad[w.typeName] = true
 			r.bad("node.("+w.typeName+")#remembers:"+w.field, w.pos, "during evaluation the node stores a "+types.TypeString(w.ftype, func(p *types.Package) string { return p.Name() })+" in its own field "+w.field+": the AST node is shared by every object that reaches this site, so one instantiation's declaration is later applied to another")
 		}
@@ -781,4 +788,98 @@ func methodWritesReceiver(info *types.Info, md *ast.FuncDecl) bool {
 		return !writes
 	})
 	return writes
+}
+
+// c19OwnClassFirst: the declared type of a property is the one of the object's own instantiation. The
+// lookup behind every typed property write, (ClassValue).GetPropertyStmt, therefore starts at the class
+// the object was created from (the receiver's Class field) — not at a class looked up again by name in
+// the VM, which for a generic class is the shared template (every Box<X> would then answer alike).
+func c19OwnClassFirst(r *Run) {
+	dp := r.pkg("data")
+	if dp == nil {
+		return
+	}
+	r.curRule = "C19-SHARED"
+	info := dp.TypesInfo
+	fd := findFunc(dp, "ClassValue", "GetPropertyStmt")
+	if fd == nil || fd.Recv == nil || len(fd.Recv.List[0].Names) == 0 {
+		r.fail("anchor not found: data.(ClassValue).GetPropertyStmt")
+		return
+	}
+	recv := info.Defs[fd.Recv.List[0].Names[0]]
+	isOwn := func(e ast.Expr) bool {
+		se, ok := ast.Unparen(e).(*ast.SelectorExpr)
+		if !ok || se.Sel.Name != "Class" {
+			return false
+		}
+		id, ok := ast.Unparen(se.X).(*ast.Ident)
+		return ok && info.Uses[id] == recv
+	}
+	var first *ast.CallExpr
+	ast.Inspect(fd.Body, func(n ast.Node) bool {
+		if c, ok := n.(*ast.CallExpr); ok {
+			if se, ok := ast.Unparen(c.Fun).(*ast.SelectorExpr); ok && se.Sel.Name == "GetProperty" && isNamed(info.TypeOf(se.X), modPath+"/data", "ClassStmt") {
+				if first == nil || c.Pos() < first.Pos() {
+					first = c
+				}
+			}
+		}
+		return true
+	})
+	key := funcKey(dp, fd) + "#own-class-first"
+	if first == nil {
+		// the lookup may go through a probe closure applied to c.Class first (judged by C08-LOOKUP's twin rule)
+		applied := false
+		ast.Inspect(fd.Body, func(n ast.Node) bool {
+			if c, ok := n.(*ast.CallExpr); ok {
+				for _, a := range c.Args {
+					if isOwn(a) {
+						applied = true
+					}
+				}
+				if se, ok := ast.Unparen(c.Fun).(*ast.SelectorExpr); ok && isOwn(se.X) {
+					applied = true
+				}
+			}
+			return true
+		})
+		if applied {
+			r.ok(key, fd.Pos(), "the property lookup is applied to the object's own class")
+		} else {
+			r.fail("data.(ClassValue).GetPropertyStmt: no property lookup on a class declaration found")
+		}
+		return
+	}
+	target := ast.Unparen(first.Fun.(*ast.SelectorExpr).X)
+	ok := isOwn(target)
+	why := ""
+	if id, isID := target.(*ast.Ident); isID && !ok {
+		o := info.Uses[id]
+		ok = true
+		seen := false
+		ast.Inspect(fd.Body, func(n ast.Node) bool {
+			as, isAs := n.(*ast.AssignStmt)
+			if !isAs || as.Pos() >= first.Pos() || len(as.Lhs) != len(as.Rhs) {
+				return true
+			}
+			for i, l := range as.Lhs {
+				if lid, isL := l.(*ast.Ident); isL && (info.Defs[lid] == o || info.Uses[lid] == o) {
+					seen = true
+					if !isOwn(as.Rhs[i]) {
+						ok = false
+						why = exprStr(as.Rhs[i])
+					}
+				}
+			}
+			return true
+		})
+		if !seen {
+			ok = false
+		}
+	}
+	if ok {
+		r.ok(key, first.Pos(), "the first property lookup is on the class the object was created from")
+	} else {
+		r.bad(key, first.Pos(), "the property declaration is first looked up on "+exprStr(target)+" ("+why+"), not on the object's own class: for an instance of a generic class that is the shared template, so every instantiation answers with the same (unbound) member types")
+	}
 }
